@@ -39,7 +39,10 @@ import (
 var vDSeqPool = []uint64{1, 12, 123, 255, 256, 257, 300, 65535, 65536, 65537, 1<<32 - 1, 1 << 32, 1<<32 + 1, 1 << 63, 1<<64 - 1}
 
 var vAttrKeys = []string{"region", "tier", "arch"}
-var vAttrVals = []string{"a", "b"}
+
+// the empty value is legal and must be matched like any other (a map lookup without the
+// comma-ok form treats "key missing" as "value empty")
+var vAttrVals = []string{"a", "b", ""}
 
 func vCoin(n int64) sdk.Coin { return sdk.NewInt64Coin(vDenom, n) }
 
